@@ -752,6 +752,7 @@ class MatchFn(Fn):
         if recursive and "self" not in kinds:
             kinds[rng.choice([i for i, k in enumerate(kinds) if k != "fix"])] = "self"        # (one rule always fixes the type)
         base = rng.choice([INT, STR, BOOL])
+        wrap = rng.choice([None, None, "slice", "tuple", "tuplelit", "box", "some"])
         arms, texts, dflt, t0 = [], [], [], None
         for (cname, pt), kind in zip(rules, kinds):
             bind = ""
@@ -783,6 +784,18 @@ class MatchFn(Fn):
                     b, xb = "(%s) + (%s)" % (inner, inner), call("same+", xb, ["self", [V(a) for a in args]])
                 else:
                     b = inner
+            # every rule wraps its value in the same structure (or none): the parts are then related only through the match
+            if wrap == "slice":
+                b, tb, xb = "[%s]" % b, sl(tb), ["slice", [xb]]
+            elif wrap == "tuple":
+                q2 = rng.choice(others)
+                b, tb, xb = "(%s, %s)" % (b, q2), tup(tb, self.env[q2]), ["tuple", [xb, V(q2)]]
+            elif wrap == "tuplelit":
+                b, tb, xb = "(%s, 1)" % b, tup(tb, INT), ["tuple", [xb, LIT["int"]]]
+            elif wrap == "box":
+                b, tb, xb = '{Val=%s; Tag="t"}' % b, ["named", "IBox", [tb]], call("{IBox}", xb, LIT["str"])
+            elif wrap == "some":
+                b, tb, xb = "ISome %s" % self.atom(b), ["named", "IOpt", [tb]], call("ISome", xb)
             if t0 is None:
                 t0 = tb
             else:
